@@ -48,12 +48,6 @@ def run(ck, tier):
         raise vf.ToolError("TraceValidity model failed its own invariants (specification bug): %s" % (r.error or "")[:1500])
     ck.add_tlc("validity", r)
     cases = r.tagged("REPLAY")
-    if thorough:
-        r16 = vf.tlc("MCTraceValidity.tla", "TraceValidity_L16.cfg", cwd=SPECDIR, workers=4, timeout=3000)
-        if not r16.ok:
-            raise vf.ToolError("TraceValidity (L=16) failed its own invariants (specification bug): %s" % (r16.error or "")[:1500])
-        ck.add_tlc("validity-L16", r16)
-        cases += r16.tagged("REPLAY")
     ck.require(len(cases) > 2000, "too few validity cases: %d" % len(cases))
     nvalid = sum(1 for c in cases if c["expect_valid"])
     ck.require(nvalid > 100 and nvalid < len(cases) - 100, "validity classes unbalanced: %d valid of %d" % (nvalid, len(cases)))
